@@ -529,6 +529,11 @@ func (s *Stage) Recover() {
 			if info.ModTime().Before(oldest) {
 				oldest = info.ModTime()
 			}
+			// The file this companion stands for may have been delivered
+			// long before the (re)transmission found here began
+			if t := s.cacheStartFor(cmp.Name, cmp.Time.Time); t.Before(oldest) {
+				oldest = t
+			}
 			base := strings.TrimSuffix(path, compExt)
 			if _, err = os.Stat(base + waitExt); !os.IsNotExist(err) {
 				// A held file was validated before the restart, but the first
@@ -600,8 +605,9 @@ func (s *Stage) Recover() {
 		s.logError(err.Error())
 	}
 	// Build the cache from the incoming log starting at the time of the oldest
-	// companion file found (or "now" if none exists) minus the cache age. Even
-	// if no files are found on the stage, we still want to build the cache.
+	// companion file found - or of the oldest file a companion stands for - (or
+	// "now" if none exists) minus the cache age. Even if no files are found on
+	// the stage, we still want to build the cache.
 	s.logDebug("Stage recovery cache build:", oldest.Add(-1*cacheAgeLogged))
 	s.buildCache(oldest.Add(-1 * cacheAgeLogged))
 	if len(validate) == 0 && len(finalize) == 0 {
